@@ -164,7 +164,7 @@ def cases(tier, seed, rng):
     # the index conversions at the edge of the number format (intervals +inf / denormal, offsets and positions whose difference
     # overflows: the index estimate is inf or NaN) and on a range axis without ticks, under the sanitizers (float-cast-overflow included)
     for c in C07.cases('quick', seed + 1607, random.Random(seed * 104729 + 7)):
-        if c.origin in ('gen:sampled-extreme', 'gen:range-empty'):
+        if c.origin in ('gen:sampled-extreme', 'gen:range-empty', 'gen:count-extreme'):
             c.origin = 'abuse:C07:' + c.origin
             out.append(c)
     # token-level abuse of the programs of every family (checks/abuse_dims.py): harness only, survival only
